@@ -18,7 +18,8 @@ def sh(cmd, cwd=None, env=None, timeout=3600):
 sh("git -C /repo worktree remove --force %s" % wt)
 rc, out = sh("git -C /repo worktree add -q --detach %s main" % wt)
 assert rc == 0, out
-env = {"CARGO_TARGET_DIR": "/tmp/seedtry-target-%s" % crate.replace("/", "_"), "CARGO_NET_OFFLINE": "true"}
+tgt = "/tmp/seedtry-target-%s-%s" % (prop, var)
+env = {"CARGO_TARGET_DIR": tgt, "CARGO_NET_OFFLINE": "true"}
 cdir = wt if crate in (".", "rten") else os.path.join(wt, crate)
 pkg = "rten" if crate in (".", "rten") else crate
 meta = {"property": prop, "variant": var, "crate": pkg, "ran": []}
@@ -59,4 +60,5 @@ notes = os.path.join(vdir, "notes.md")
 meta["needs_to_manifest"] = "see notes.md"
 json.dump(meta, open(os.path.join(dst, "meta.json"), "w"), indent=1)
 sh("git -C /repo worktree remove --force %s" % wt)
+shutil.rmtree(tgt, ignore_errors=True)
 print(json.dumps({k: meta[k] for k in meta if k != "ran"}, indent=1)[:1800])
